@@ -758,8 +758,12 @@ class Frame(object):
         if bounding_f_range is None:
             bounding_min, bounding_max = 0, self.fchans
         else:
-            bounding_min = min(max(self.get_index(bounding_f_range[0]), 0), self.fchans)
-            bounding_max = min(max(self.get_index(bounding_f_range[1]), bounding_min), self.fchans)
+            # Bounds beyond the band (also infinite ones) select up to the band's edge; clamp them
+            # before the conversion to an integer index, which overflows for very large values
+            f_lo, f_hi = [np.clip(unit_utils.get_value(f, u.Hz), self.fmin - 2 * self.df, self.fmax + 2 * self.df)
+                          for f in bounding_f_range]
+            bounding_min = min(max(self.get_index(f_lo), 0), self.fchans)
+            bounding_max = min(max(self.get_index(f_hi), bounding_min), self.fchans)
         if bounding_max <= bounding_min:
             # Bounding range is empty or lies wholly outside the band
             return np.zeros(self.shape)
